@@ -68,11 +68,80 @@ Definition dyn_contains (c x : jv) : res bool :=
 Definition dyn_index (l : list jv) (i : jv) : res jv :=
   match dyn_as_int i with Some z => py_index l (bnd_of_Z z) | None => Err EType end.
 
+(** [d.keys()] *)
+Definition dyn_keys (v : jv) : res (list str) := match v with JObj o => Ok (map fst o) | _ => Err EAttr end.
+
 (** [iteritems(d)] *)
 Definition dyn_items (v : jv) : res (list (str * jv)) := match v with JObj o => Ok o | _ => Err EAttr end.
 
 (** [a * b] *)
 Definition dyn_mul (a b : jv) : res jv := do x <- dyn_int a; do y <- dyn_int b; Ok (JInt (x * y)).
+
+(** [v * n] with n a known int count: repetition of a list / str, product of a number *)
+Definition dyn_times (v : jv) (n : nat) : res jv :=
+  match v with
+  | JArr l => Ok (JArr (py_repeat l n))
+  | JStr s => Ok (JStr (py_repeat s n))
+  | _ => match dyn_as_int v with Some z => Ok (JInt (z * Z.of_nat n)) | None => Err EType end
+  end.
+
+(** [v[i]] and [v[a:b]] with integer positions on a dynamic value *)
+Definition dyn_getidx (v : jv) (i : bnd) : res jv :=
+  match v with
+  | JArr l => py_index l i
+  | JStr s => match py_index s i with Ok ch => Ok (JStr [ch]) | Err e => Err e end
+  | JObj _ => Err EKey
+  | _ => Err EType
+  end.
+Definition dyn_slice (lo hi : option bnd) (v : jv) : res jv :=
+  match v with
+  | JArr l => Ok (JArr (pslice lo hi l))
+  | JStr s => Ok (JStr (pslice lo hi s))
+  | _ => Err EType
+  end.
+
+(** a value passed where a sequence is expected (list or str; a dict is outside the domain) *)
+Definition dyn_seq (v : jv) : res (list jv) :=
+  match v with JArr l => Ok l | JStr s => Ok (map (fun ch => JStr [ch]) s) | _ => Err EType end.
+
+(** [v[lo:hi:step]], step a non-negative int: 0 is ValueError *)
+Definition dyn_slice_step (lo hi : option bnd) (step : nat) (v : jv) : res jv :=
+  if Nat.eqb step 0 then (match v with JArr _ | JStr _ => Err EValue | _ => Err EType end) else
+  match v with
+  | JArr l => Ok (JArr (py_every step (pslice lo hi l)))
+  | JStr s => Ok (JStr (py_every step (pslice lo hi s)))
+  | _ => Err EType
+  end.
+
+(** the state: a content dictionary with nested dictionaries.  [st[a][b][k] = v] and [del st[a][b][k]]:
+    a dict keeps its key order, an assignment replaces in place or appends *)
+Fixpoint jset (k : str) (v : jv) (o : list (str * jv)) : list (str * jv) :=
+  match o with
+  | [] => [(k, v)]
+  | (k', v') :: r => if str_eqb k k' then (k', v) :: r else (k', v') :: jset k v r
+  end.
+Fixpoint jdel (k : str) (o : list (str * jv)) : option (list (str * jv)) :=
+  match o with
+  | [] => None
+  | (k', v') :: r => if str_eqb k k' then Some r else option_map (cons (k', v')) (jdel k r)
+  end.
+Definition dyn_set2 (st : jv) (a b k : str) (v : jv) : res jv :=
+  do x <- dyn_getitem st a; do y <- dyn_getitem x b;
+  match st, x, y with
+  | JObj o, JObj bo, JObj d => Ok (JObj (jset a (JObj (jset b (JObj (jset k v d)) bo)) o))
+  | _, _, _ => Err EType
+  end.
+Definition dyn_del2 (st : jv) (a b k : str) : res jv :=
+  do x <- dyn_getitem st a; do y <- dyn_getitem x b;
+  match st, x, y with
+  | JObj o, JObj bo, JObj d =>
+      match jdel k d with
+      | Some d' => Ok (JObj (jset a (JObj (jset b (JObj d') bo)) o))
+      | None => Err EKey
+      end
+  | _, _, JArr _ => Err EType          (* del list['key'] *)
+  | _, _, _ => Err EType
+  end.
 
 (** sets as lists without duplicates: [set(l)], [a <= b], [a & b] *)
 Fixpoint py_set {A} (eqb : A -> A -> bool) (l : list A) : list A :=
